@@ -46,6 +46,8 @@ struct View {
 struct MusigSim {
     const Plan &p; Result &r; Net net;
     secp256k1_context *ctx = nullptr;
+    bool frugal = false;
+    const secp256k1_context *fc(const char *api) { if (frugal && !documented_not_static(api)) { r.probe("static_ctx_call"); return secp256k1_context_static; } return ctx; }
     int n = 2; bool sort = false, adaptor = false, naive = false, sloppy = false; int max_attempts = 5;
     uint64_t inseed = 0; uint64_t draw = 0;
     // ground truth
@@ -97,30 +99,30 @@ struct MusigSim {
         if (!v.have_keys) return;
         std::vector<secp256k1_pubkey> pks(v.keys.size());
         for (size_t i = 0; i < v.keys.size(); i++)
-            if (!L01(secp256k1_ec_pubkey_parse(ctx, &pks[i], v.keys[i].data(), 33))) return;   // checked on receipt already
+            if (!L01(secp256k1_ec_pubkey_parse(fc("secp256k1_ec_pubkey_parse"), &pks[i], v.keys[i].data(), 33))) return;   // checked on receipt already
         std::vector<const secp256k1_pubkey *> ptr;
         for (auto &x : pks) ptr.push_back(&x);
         std::vector<K33> order = v.keys;
         if (sort) {
-            L01(secp256k1_ec_pubkey_sort(ctx, ptr.data(), ptr.size()));
+            L01(secp256k1_ec_pubkey_sort(fc("secp256k1_ec_pubkey_sort"), ptr.data(), ptr.size()));
             std::sort(order.begin(), order.end());
             for (size_t i = 0; i < ptr.size(); i++) {
                 uint8_t b[33]; size_t l = 33;
-                L01(secp256k1_ec_pubkey_serialize(ctx, b, &l, ptr[i], SECP256K1_EC_COMPRESSED));
+                L01(secp256k1_ec_pubkey_serialize(fc("secp256k1_ec_pubkey_serialize"), b, &l, ptr[i], SECP256K1_EC_COMPRESSED));
                 r.cmp();
                 if (memcmp(b, order[i].data(), 33) != 0) { r.violate("C12", "sort_order", "secp256k1_ec_pubkey_sort", "sorted order differs from lexicographic order of compressed encodings"); return; }
             }
         }
         secp256k1_xonly_pubkey agg;
         MonMark mk = mon_mark();
-        int ok = L01(secp256k1_musig_pubkey_agg(ctx, &agg, &v.cache, ptr.data(), ptr.size()));
+        int ok = L01(secp256k1_musig_pubkey_agg(fc("secp256k1_musig_pubkey_agg"), &agg, &v.cache, ptr.data(), ptr.size()));
         v.model = ref::keyagg(order);
         r.cmp();
         if (!mon_quiet_since(mk)) { r.violate("C12", "callback", "secp256k1_musig_pubkey_agg", "callback on valid arguments"); return; }
         if ((ok != 0) != v.model.ok) { r.violate("C12", "keyagg", "secp256k1_musig_pubkey_agg", who + ": library and BIP-327 model disagree on success of KeyAgg"); return; }
         if (!ok) return;
         uint8_t x[32], mx[32];
-        L01(secp256k1_xonly_pubkey_serialize(ctx, x, &agg)); ref::xbytes(v.model.Q, mx);
+        L01(secp256k1_xonly_pubkey_serialize(fc("secp256k1_xonly_pubkey_serialize"), x, &agg)); ref::xbytes(v.model.Q, mx);
         if (memcmp(x, mx, 32) != 0) { r.violate("C12", "keyagg", "secp256k1_musig_pubkey_agg", who + ": aggregate key " + hex(x, 32) + " != model " + hex(mx, 32)); return; }
         if (v.model.has_second) r.probe("second_key_used");
         v.pks.clear(); for (auto q : ptr) v.pks.push_back(*q);
@@ -132,27 +134,27 @@ struct MusigSim {
                 ref::KeyAggCtx before = v.model;
                 bool was_odd = v.model.Q.y.is_odd();
                 mk = mon_mark();
-                int tok = tw.first ? L01(secp256k1_musig_pubkey_xonly_tweak_add(ctx, &out, &v.cache, tw.second.data()))
-                                   : L01(secp256k1_musig_pubkey_ec_tweak_add(ctx, &out, &v.cache, tw.second.data()));
+                int tok = tw.first ? L01(secp256k1_musig_pubkey_xonly_tweak_add(fc("secp256k1_musig_pubkey_xonly_tweak_add"), &out, &v.cache, tw.second.data()))
+                                   : L01(secp256k1_musig_pubkey_ec_tweak_add(fc("secp256k1_musig_pubkey_ec_tweak_add"), &out, &v.cache, tw.second.data()));
                 bool mok = ref::apply_tweak(v.model, tw.second.data(), tw.first != 0);
                 r.cmp();
                 if (!mon_quiet_since(mk)) { r.violate("C12", "callback", "secp256k1_musig_pubkey_tweak_add", "callback on valid arguments"); return; }
                 if ((tok != 0) != mok) { r.violate("C12", "tweak", tw.first ? "secp256k1_musig_pubkey_xonly_tweak_add" : "secp256k1_musig_pubkey_ec_tweak_add", who + ": library and model disagree on tweak success"); return; }
                 if (!mok) { v.model = before; r.probe("tweak_refused"); continue; }   // refused identically; the cache must still be usable (checked by what follows)
                 if (tw.first && was_odd) r.probe("xonly_tweak_negated");
-                L01(secp256k1_ec_pubkey_serialize(ctx, ob, &l, &out, SECP256K1_EC_COMPRESSED)); ref::ser33(v.model.Q, mb);
+                L01(secp256k1_ec_pubkey_serialize(fc("secp256k1_ec_pubkey_serialize"), ob, &l, &out, SECP256K1_EC_COMPRESSED)); ref::ser33(v.model.Q, mb);
                 if (memcmp(ob, mb, 33) != 0) { r.violate("C12", "tweak", tw.first ? "secp256k1_musig_pubkey_xonly_tweak_add" : "secp256k1_musig_pubkey_ec_tweak_add", who + ": tweaked key " + hex(ob, 33) + " != model " + hex(mb, 33)); return; }
             }
             v.cache_tweaked = true;
             secp256k1_pubkey got; uint8_t gb[33], mb[33]; size_t l = 33;
-            if (L01(secp256k1_musig_pubkey_get(ctx, &got, &v.cache))) {
-                L01(secp256k1_ec_pubkey_serialize(ctx, gb, &l, &got, SECP256K1_EC_COMPRESSED)); ref::ser33(v.model.Q, mb);
+            if (L01(secp256k1_musig_pubkey_get(fc("secp256k1_musig_pubkey_get"), &got, &v.cache))) {
+                L01(secp256k1_ec_pubkey_serialize(fc("secp256k1_ec_pubkey_serialize"), gb, &l, &got, SECP256K1_EC_COMPRESSED)); ref::ser33(v.model.Q, mb);
                 r.cmp();
                 if (memcmp(gb, mb, 33) != 0) r.violate("C12", "tweak", "secp256k1_musig_pubkey_get", who + ": final aggregate key differs from model");
             }
         }
         if (v.want_adaptor && v.have_adaptor) {
-            if (!L01(secp256k1_ec_pubkey_parse(ctx, &v.adaptor_pk, v.adaptor33, 33)) || !ref::parse_pubkey(v.adaptor33, 33, &v.adaptor_pt)) v.have_adaptor = false;
+            if (!L01(secp256k1_ec_pubkey_parse(fc("secp256k1_ec_pubkey_parse"), &v.adaptor_pk, v.adaptor33, 33)) || !ref::parse_pubkey(v.adaptor33, 33, &v.adaptor_pt)) v.have_adaptor = false;
         }
     }
     // returns true if the view changed
@@ -165,7 +167,7 @@ struct MusigSim {
                 for (size_t i = 0; i < m.bytes.size(); i += 33) {
                     K33 k; memcpy(k.data(), &m.bytes[i], 33);
                     ref::Pt mp;
-                    int ok = L01(secp256k1_ec_pubkey_parse(ctx, &tmp, k.data(), 33));
+                    int ok = L01(secp256k1_ec_pubkey_parse(fc("secp256k1_ec_pubkey_parse"), &tmp, k.data(), 33));
                     r.cmp();
                     if ((ok != 0) != ref::parse_pubkey(k.data(), 33, &mp)) { r.violate("C12", "parse", "secp256k1_ec_pubkey_parse", "library and model disagree on a received key " + hex(k.data(), 33)); return false; }
                     if (!ok) return false;
@@ -187,7 +189,7 @@ struct MusigSim {
                 return true;
             case K_ADAPTOR:
                 if (m.bytes.size() != 33) return false;
-                if (!L01(secp256k1_ec_pubkey_parse(ctx, &tmp, m.bytes.data(), 33))) return false;
+                if (!L01(secp256k1_ec_pubkey_parse(fc("secp256k1_ec_pubkey_parse"), &tmp, m.bytes.data(), 33))) return false;
                 memcpy(v.adaptor33, m.bytes.data(), 33); v.have_adaptor = true; v.clean_adaptor = m.intact();
                 return true;
         }
@@ -259,7 +261,7 @@ struct MusigSim {
             uint8_t secrand[32]; fresh32(secrand);
             memcpy(model_rand, secrand, 32);
             tuple.push_back(0); tuple.insert(tuple.end(), secrand, secrand + 32);
-            ok = L01(secp256k1_musig_nonce_gen(ctx, &sn, &pn, secrand, c.give_sk ? sk[i].data() : NULL, &pk[i], m, cache, ex));
+            ok = L01(secp256k1_musig_nonce_gen(fc("secp256k1_musig_nonce_gen"), &sn, &pn, secrand, c.give_sk ? sk[i].data() : NULL, &pk[i], m, cache, ex));
             r.cmp();
             if (ok && !all_zero(secrand, 32)) { r.violate("C13", "secrand_not_wiped", "secp256k1_musig_nonce_gen", "session_secrand32 not zeroed after successful nonce generation"); return; }
             tuple.push_back(c.give_sk);
@@ -270,7 +272,7 @@ struct MusigSim {
             uint64_t cnt = ((uint64_t)c.device << c.bits) + s.counter;
             tuple.push_back(1); for (int k = 0; k < 8; k++) tuple.push_back((uint8_t)(cnt >> (56 - 8 * k)));
             for (int k = 0; k < 8; k++) model_rand[k] = (uint8_t)(cnt >> (56 - 8 * k));   // documented: the counter takes the place of session_secrand32
-            ok = L01(secp256k1_musig_nonce_gen_counter(ctx, &sn, &pn, cnt, &kp[i], m, cache, ex));
+            ok = L01(secp256k1_musig_nonce_gen_counter(fc("secp256k1_musig_nonce_gen_counter"), &sn, &pn, cnt, &kp[i], m, cache, ex));
             if (c.device) r.probe("counter_high_bits");
         }
         tuple.insert(tuple.end(), pk33[i].begin(), pk33[i].end());
@@ -281,7 +283,7 @@ struct MusigSim {
         if (!ok || !mon_quiet_since(mk)) { r.violate("C12", "nonce_gen", c.api ? "secp256k1_musig_nonce_gen_counter" : "secp256k1_musig_nonce_gen", "nonce generation failed on valid arguments: " + g_mon.last_illegal); return; }
         r.probe(std::string("noncegen_") + (c.api ? "counter" : "rand") + (m ? "_msg" : "") + (cache ? (s.v.cache_tweaked ? "_tweakedcache" : "_cache") : "") + (ex ? "_extra" : "") + (c.give_sk ? "" : "_nosk"));
         N66 pb;
-        L01(secp256k1_musig_pubnonce_serialize(ctx, pb.data(), &pn));
+        L01(secp256k1_musig_pubnonce_serialize(fc("secp256k1_musig_pubnonce_serialize"), pb.data(), &pn));
         register_pubnonce(pb, tuple);
         {   // BIP-327 NonceGen: the public nonce is the model's function of exactly the inputs given
             uint8_t q[32], k1[32], k2[32], want[66];
@@ -319,7 +321,7 @@ struct MusigSim {
         if (!m.intact()) dirty[a] = true;
         secp256k1_musig_aggnonce an; secp256k1_musig_session sess;
         memset(&sess, 0, sizeof sess);
-        bool parsed = m.bytes.size() == 66 && L01(secp256k1_musig_aggnonce_parse(ctx, &an, m.bytes.data()));
+        bool parsed = m.bytes.size() == 66 && L01(secp256k1_musig_aggnonce_parse(fc("secp256k1_musig_aggnonce_parse"), &an, m.bytes.data()));
         { // parse verdict vs model
             ref::Pt a1, a2;
             bool mp = m.bytes.size() == 66 && ref::parse33_ext(m.bytes.data(), &a1) && ref::parse33_ext(m.bytes.data() + 33, &a2);
@@ -330,7 +332,7 @@ struct MusigSim {
         bool have_session = false;
         if (parsed) {
             MonMark mk = mon_mark();
-            int ok = L01(secp256k1_musig_nonce_process(ctx, &sess, &an, s.v.msg, &s.v.cache, s.v.want_adaptor ? &s.v.adaptor_pk : NULL));
+            int ok = L01(secp256k1_musig_nonce_process(fc("secp256k1_musig_nonce_process"), &sess, &an, s.v.msg, &s.v.cache, s.v.want_adaptor ? &s.v.adaptor_pk : NULL));
             sv = ref::session_values(s.v.model, m.bytes.data(), s.v.msg, s.v.want_adaptor ? &s.v.adaptor_pt : nullptr);
             r.cmp();
             if (!ok || !sv.ok || !mon_quiet_since(mk)) { r.violate("C12", "nonce_process", "secp256k1_musig_nonce_process", "nonce_process failed on a parsed aggregate nonce"); return; }
@@ -346,7 +348,7 @@ struct MusigSim {
         secp256k1_musig_secnonce &sn = s.secnonce[a];
         bool was_live = !all_zero(&sn, sizeof sn);
         int64_t ill0 = g_mon.illegal_count;
-        int ok = L01(secp256k1_musig_partial_sign(ctx, &ps, &sn, &kp[i], &s.v.cache, &sess));
+        int ok = L01(secp256k1_musig_partial_sign(fc("secp256k1_musig_partial_sign"), &ps, &sn, &kp[i], &s.v.cache, &sess));
         int64_t ill = g_mon.illegal_count - ill0;
         call_no++;
         r.cmp();
@@ -362,7 +364,7 @@ struct MusigSim {
         if (!ok) return;
         s.signed_[a] = true;
         ref::B32 psb;
-        L01(secp256k1_musig_partial_sig_serialize(ctx, psb.data(), &ps));
+        L01(secp256k1_musig_partial_sig_serialize(fc("secp256k1_musig_partial_sig_serialize"), psb.data(), &ps));
         // own partial signature must satisfy the model's PartialSigVerify for own key, nonce, session
         r.cmp();
         if (!ref::partial_sig_verify(s.v.model, sv, psb.data(), s.pubnonce[a].data(), pk33[i].data())) {
@@ -426,7 +428,7 @@ struct MusigSim {
         if (C.pn.count(j)) return;
         if (!m.intact()) dirty[C.attempt] = true;
         secp256k1_musig_pubnonce pn;
-        bool ok = m.bytes.size() == 66 && L01(secp256k1_musig_pubnonce_parse(ctx, &pn, m.bytes.data()));
+        bool ok = m.bytes.size() == 66 && L01(secp256k1_musig_pubnonce_parse(fc("secp256k1_musig_pubnonce_parse"), &pn, m.bytes.data()));
         { ref::Pt a, b; bool mp = m.bytes.size() == 66 && ref::parse_pubkey(m.bytes.data(), 33, &a) && ref::parse_pubkey(m.bytes.data() + 33, 33, &b);
           r.cmp(); if (ok != mp) { r.violate("C12", "parse", "secp256k1_musig_pubnonce_parse", "library and model disagree on a received public nonce " + hex(m.bytes)); return; } }
         if (!ok) { coord_abort("public nonce of signer " + std::to_string(j) + " does not parse"); return; }
@@ -448,22 +450,22 @@ struct MusigSim {
             r.fault("byz_cancel");
         }
         std::vector<secp256k1_musig_pubnonce> pns(n); std::vector<const secp256k1_musig_pubnonce *> pp; std::vector<N66> raw;
-        for (int i = 1; i <= n; i++) { if (!L01(secp256k1_musig_pubnonce_parse(ctx, &pns[i - 1], C.pn[i].data()))) { coord_abort("replaced nonce does not parse"); return; } pp.push_back(&pns[i - 1]); raw.push_back(C.pn[i]); }
+        for (int i = 1; i <= n; i++) { if (!L01(secp256k1_musig_pubnonce_parse(fc("secp256k1_musig_pubnonce_parse"), &pns[i - 1], C.pn[i].data()))) { coord_abort("replaced nonce does not parse"); return; } pp.push_back(&pns[i - 1]); raw.push_back(C.pn[i]); }
         secp256k1_musig_aggnonce an;
         MonMark mk = mon_mark();
-        int aok = L01(secp256k1_musig_nonce_agg(ctx, &an, pp.data(), pp.size()));
+        int aok = L01(secp256k1_musig_nonce_agg(fc("secp256k1_musig_nonce_agg"), &an, pp.data(), pp.size()));
         uint8_t ab[66], mb[66];
         bool mok = ref::nonce_agg(raw, mb);
         r.cmp();
         if (!aok || !mok || !mon_quiet_since(mk)) { r.violate("C12", "nonce_agg", "secp256k1_musig_nonce_agg", "nonce aggregation failed on parsed nonces"); return; }
-        L01(secp256k1_musig_aggnonce_serialize(ctx, ab, &an));
+        L01(secp256k1_musig_aggnonce_serialize(fc("secp256k1_musig_aggnonce_serialize"), ab, &an));
         if (memcmp(ab, mb, 66) != 0) { r.violate("C12", "nonce_agg", "secp256k1_musig_nonce_agg", "aggregate nonce " + hex(ab, 66) + " != model NonceAgg " + hex(mb, 66)); return; }
         if (all_zero(ab, 33) || all_zero(ab + 33, 33)) r.probe("aggnonce_component_infinity");
         memcpy(C.aggnonce66, ab, 66);
         // coordinator's own session
         if (!C.v.cache_ok || !C.v.cache_tweaked) { coord_abort("coordinator has no key aggregation cache"); return; }
         mk = mon_mark();
-        int pok = L01(secp256k1_musig_nonce_process(ctx, &C.session, &an, C.v.msg, &C.v.cache, adaptor ? &C.v.adaptor_pk : NULL));
+        int pok = L01(secp256k1_musig_nonce_process(fc("secp256k1_musig_nonce_process"), &C.session, &an, C.v.msg, &C.v.cache, adaptor ? &C.v.adaptor_pk : NULL));
         C.sv = ref::session_values(C.v.model, ab, C.v.msg, adaptor ? &C.v.adaptor_pt : nullptr);
         if (!pok || !C.sv.ok || !mon_quiet_since(mk)) { r.violate("C12", "nonce_process", "secp256k1_musig_nonce_process", "coordinator nonce_process failed"); return; }
         { ref::Pt r1, r2; ref::parse33_ext(ab, &r1); ref::parse33_ext(ab + 33, &r2); if (adaptor) r1 = ref::add(r1, C.v.adaptor_pt);
@@ -473,10 +475,10 @@ struct MusigSim {
     }
     bool lib_psig_verify(const ref::B32 &ps, const N66 &pn, const secp256k1_pubkey &key, bool *parsed) {
         secp256k1_musig_partial_sig sig; secp256k1_musig_pubnonce pno;
-        *parsed = L01(secp256k1_musig_partial_sig_parse(ctx, &sig, ps.data())) != 0;
+        *parsed = L01(secp256k1_musig_partial_sig_parse(fc("secp256k1_musig_partial_sig_parse"), &sig, ps.data())) != 0;
         if (!*parsed) return false;
-        if (!L01(secp256k1_musig_pubnonce_parse(ctx, &pno, pn.data()))) return false;
-        return L01(secp256k1_musig_partial_sig_verify(ctx, &sig, &pno, &key, &C.v.cache, &C.session)) != 0;
+        if (!L01(secp256k1_musig_pubnonce_parse(fc("secp256k1_musig_pubnonce_parse"), &pno, pn.data()))) return false;
+        return L01(secp256k1_musig_partial_sig_verify(fc("secp256k1_musig_partial_sig_verify"), &sig, &pno, &key, &C.v.cache, &C.session)) != 0;
     }
     void coord_psig(const Msg &m) {
         if (m.attempt != C.attempt || !C.session_ok || C.done) return;
@@ -508,35 +510,35 @@ struct MusigSim {
         if ((int)C.psig.size() < n) return;
         // aggregate
         std::vector<secp256k1_musig_partial_sig> sigs(n); std::vector<const secp256k1_musig_partial_sig *> sp; std::vector<ref::B32> raw;
-        for (int i = 1; i <= n; i++) { L01(secp256k1_musig_partial_sig_parse(ctx, &sigs[i - 1], C.psig[i].data())); sp.push_back(&sigs[i - 1]); raw.push_back(C.psig[i]); }
+        for (int i = 1; i <= n; i++) { L01(secp256k1_musig_partial_sig_parse(fc("secp256k1_musig_partial_sig_parse"), &sigs[i - 1], C.psig[i].data())); sp.push_back(&sigs[i - 1]); raw.push_back(C.psig[i]); }
         uint8_t sig[64], msig[64];
         mk = mon_mark();
-        int aok = L01(secp256k1_musig_partial_sig_agg(ctx, sig, &C.session, sp.data(), sp.size()));
+        int aok = L01(secp256k1_musig_partial_sig_agg(fc("secp256k1_musig_partial_sig_agg"), sig, &C.session, sp.data(), sp.size()));
         bool mok = ref::partial_sig_agg(C.v.model, C.sv, raw, msig);
         r.cmp();
         if (!aok || !mok || !mon_quiet_since(mk) || memcmp(sig, msig, 64) != 0) { r.violate("C12", "sig_agg", "secp256k1_musig_partial_sig_agg", "aggregated signature " + hex(sig, 64) + " != model PartialSigAgg " + hex(msig, 64)); return; }
         uint8_t fin[64]; memcpy(fin, sig, 64);
         uint8_t q[32]; ref::xbytes(C.v.model.Q, q);
         secp256k1_xonly_pubkey xq;
-        if (!L01(secp256k1_xonly_pubkey_parse(ctx, &xq, q))) { r.violate("C12", "final_verify", "secp256k1_xonly_pubkey_parse", "model aggregate key does not parse"); return; }
+        if (!L01(secp256k1_xonly_pubkey_parse(fc("secp256k1_xonly_pubkey_parse"), &xq, q))) { r.violate("C12", "final_verify", "secp256k1_xonly_pubkey_parse", "model aggregate key does not parse"); return; }
         if (adaptor) {
             int par = -1;
-            int pok = L01(secp256k1_musig_nonce_parity(ctx, &par, &C.session));
+            int pok = L01(secp256k1_musig_nonce_parity(fc("secp256k1_musig_nonce_parity"), &par, &C.session));
             r.cmp();
             if (!pok || par != (C.sv.R.y.is_odd() ? 1 : 0)) { r.violate("C12", "adaptor", "secp256k1_musig_nonce_parity", "nonce parity differs from model"); return; }
             // the pre-signature itself must not verify
-            bool pre_l = L01(secp256k1_schnorrsig_verify(ctx, sig, C.v.msg, 32, &xq)) != 0, pre_m = ref::bip340_verify(q, C.v.msg, 32, sig);
+            bool pre_l = L01(secp256k1_schnorrsig_verify(fc("secp256k1_schnorrsig_verify"), sig, C.v.msg, 32, &xq)) != 0, pre_m = ref::bip340_verify(q, C.v.msg, 32, sig);
             r.cmp();
             if (pre_l != pre_m) { r.violate("C12", "final_verify", "secp256k1_schnorrsig_verify", "library and model disagree on the pre-signature"); return; }
             if (pre_l) { r.violate("C12", "adaptor", "secp256k1_musig_partial_sig_agg", "pre-signature verifies without the adaptor secret"); return; }
             uint8_t t[32];
-            int ad = L01(secp256k1_musig_adapt(ctx, fin, sig, adaptor_sk, par));
-            int ex = L01(secp256k1_musig_extract_adaptor(ctx, t, fin, sig, par));
+            int ad = L01(secp256k1_musig_adapt(fc("secp256k1_musig_adapt"), fin, sig, adaptor_sk, par));
+            int ex = L01(secp256k1_musig_extract_adaptor(fc("secp256k1_musig_extract_adaptor"), t, fin, sig, par));
             r.cmp();
             if (!ad || !ex || memcmp(t, adaptor_sk, 32) != 0) { r.violate("C12", "adaptor", "secp256k1_musig_extract_adaptor", "extract_adaptor(adapt(pre, t), pre) != t"); return; }
             if (par) r.probe("adaptor_odd_final_nonce");
         }
-        bool lf = L01(secp256k1_schnorrsig_verify(ctx, fin, C.v.msg, 32, &xq)) != 0, mf = ref::bip340_verify(q, C.v.msg, 32, fin);
+        bool lf = L01(secp256k1_schnorrsig_verify(fc("secp256k1_schnorrsig_verify"), fin, C.v.msg, 32, &xq)) != 0, mf = ref::bip340_verify(q, C.v.msg, 32, fin);
         r.cmp();
         if (lf != mf) { r.violate("C12", "final_verify", "secp256k1_schnorrsig_verify", "library and BIP-340 model disagree on the final signature"); return; }
         bool clean = !dirty[C.attempt] && C.v.clean();
@@ -594,6 +596,7 @@ struct MusigSim {
         ctx = L(secp256k1_context_create(SECP256K1_CONTEXT_NONE));
         { uint8_t sd[32]; fresh32(sd); (void)L(secp256k1_context_randomize(ctx, sd)); }
         if (p.c("comp")) L(secp256k1_context_set_sha256_compression(ctx, sim_model_compression));
+        frugal = p.c("frugal");
         // keys
         sk.resize(n + 1); kp.resize(n + 1); pk33.resize(n + 1); pk.resize(n + 1); scfg.resize(n + 1); S.resize(n + 1);
         int keyclass = (int)p.c("keyclass");
@@ -601,9 +604,9 @@ struct MusigSim {
             fresh32(sk[i].data()); sk[i][0] &= 0x7f; sk[i][31] |= 1;
             if (i >= 2 && (keyclass == 2 || (keyclass == 1 && i == 2))) sk[i] = sk[1];
             if (i == 2 && keyclass == 3) { ref::U256 v = ref::FN.neg(ref::U256::from_be(sk[1].data())); v.to_be(sk[2].data()); }
-            if (!L01(secp256k1_keypair_create(ctx, &kp[i], sk[i].data()))) { r.violate("C12", "setup", "secp256k1_keypair_create", "keypair_create failed"); return; }
-            L01(secp256k1_keypair_pub(ctx, &pk[i], &kp[i]));
-            size_t l = 33; L01(secp256k1_ec_pubkey_serialize(ctx, pk33[i].data(), &l, &pk[i], SECP256K1_EC_COMPRESSED));
+            if (!L01(secp256k1_keypair_create(fc("secp256k1_keypair_create"), &kp[i], sk[i].data()))) { r.violate("C12", "setup", "secp256k1_keypair_create", "keypair_create failed"); return; }
+            L01(secp256k1_keypair_pub(fc("secp256k1_keypair_pub"), &pk[i], &kp[i]));
+            size_t l = 33; L01(secp256k1_ec_pubkey_serialize(fc("secp256k1_ec_pubkey_serialize"), pk33[i].data(), &l, &pk[i], SECP256K1_EC_COMPRESSED));
         }
         fresh32(msg);
         if (p.c("msgclass") == 1) memset(msg, 0xff, 32); else if (p.c("msgclass") == 2) memset(msg, 0, 32);
@@ -737,6 +740,8 @@ static Plan musig_generate(uint64_t seed, int tier) {
     int mode = (int)g.below(8);
     if (mode >= 1) add_net_faults(g, p, n, 2, mode >= 5 ? (int)g.range(3, 10) : (int)g.range(1, 3));
     if (mode == 3 || mode >= 6) { int nc = (int)g.range(1, 2); for (int i = 0; i < nc; i++) { Op o; o.k = "crash"; o.a = {(int64_t)g.below(n + 1), (int64_t)g.range(1, 12 + 10 * n)}; p.ops.push_back(o); } }
+    // frugal deployment: every call the header does not mark "not secp256k1_context_static" is made with the static context
+    p.cfg["frugal"] = g.chance(1, 3);
     return p;
 }
 
